@@ -453,7 +453,7 @@ impl<'r> Gen<'r> {
             return self.rng.pick(&self.family).clone();
         }
         if self.cfg.long_names && self.rng.chance(1, 25) {
-            let len = *self.rng.pick(&[127usize, 128, 130, 300]);
+            let len = if self.rng.chance(1, 12) { *self.rng.pick(&[16_383usize, 16_384, 16_385, 16_512]) } else { *self.rng.pick(&[127usize, 128, 130, 300]) };
             return long_name(self.rng.below(3), len);
         }
         self.rng.pick(OBF_CLASSES).to_string()
@@ -783,6 +783,61 @@ pub fn huge_group_ast(rng: &mut Rng, n: usize) -> MapAst {
             ostart: Some(100 + i as u128),
             oend: if kind % 2 == 0 { Some(100 + i as u128 + 10) } else { None },
             obf: "a".into(),
+        }));
+    }
+    items.push(Item::Class { orig: "com.example.Small".into(), obf: "s".into() });
+    items.push(Item::Method(MethodEntry {
+        start: Some(1),
+        end: Some(3),
+        ret: "void".into(),
+        orig_class: None,
+        orig: "run".into(),
+        args: "".into(),
+        ostart: Some(5),
+        oend: Some(7),
+        obf: "a".into(),
+    }));
+    MapAst { items }
+}
+
+/// One class whose obfuscated method `a` has `n` entries that ALL carry a line range
+/// (disjoint ranges from line 10 upwards, a few inlined pairs), so that lines below 10,
+/// in the gaps and beyond the last range resolve to nothing although the method has
+/// dozens to hundreds of entries; plus overloads `b` without ranges and a small class.
+pub fn ranged_group_ast(rng: &mut Rng, n: usize) -> MapAst {
+    let mut items = vec![Item::Class { orig: "com.example.Ranged".into(), obf: "r.g".into() }];
+    let mut line = 10u128;
+    for i in 0..n {
+        let len = rng.below(3) as u128;
+        let (a, b) = (line, line + len);
+        line = b + 1 + if rng.chance(1, 4) { 2 } else { 0 }; // now and then a gap
+        let m = |orig: String, oc: Option<String>, os: u128| MethodEntry {
+            start: Some(a),
+            end: Some(b),
+            ret: "void".into(),
+            orig_class: oc,
+            orig,
+            args: ["", "int", "int,long"][i % 3].to_string(),
+            ostart: Some(os),
+            oend: if len > 0 { Some(os + len) } else { None },
+            obf: "a".into(),
+        };
+        if rng.chance(1, 6) {
+            items.push(Item::Method(m(format!("inl{}", i % 5), Some("com.example.Other".into()), 500 + i as u128)));
+        }
+        items.push(Item::Method(m(format!("m{}", i % 7), None, 100 + 3 * i as u128)));
+    }
+    for i in 0..3 {
+        items.push(Item::Method(MethodEntry {
+            start: None,
+            end: None,
+            ret: "int".into(),
+            orig_class: None,
+            orig: format!("over{i}"),
+            args: ["", "int", "long"][i].to_string(),
+            ostart: None,
+            oend: None,
+            obf: "b".into(),
         }));
     }
     items.push(Item::Class { orig: "com.example.Small".into(), obf: "s".into() });
